@@ -583,7 +583,10 @@ pub fn run_run_program(args: &Args) -> Result<()> {
     // (program, iteration budget, lite): lite traces are validated for accounting / sync / continuity only
     // (long runs across sync thresholds); the others instruction by instruction against the full spec
     let c15 = args.get("set") == Some("c15");
-    let mut progs: Vec<(Program, u64, bool)> = if c15 {
+    let small = args.get("set") == Some("selftest");       // bin/selftest: one short run, validated in full
+    let mut progs: Vec<(Program, u64, bool)> = if small {
+        vec![(prog_count(40, 0), 100_000, false)]
+    } else if c15 {
         let mut v: Vec<(Program, u64, bool)> = (0..10).map(|k| (prog_hostile(k), 2000u64, false)).collect();
         for k in 0..5 {
             v.push((prog_fail(k), 1000, false));
@@ -613,7 +616,7 @@ pub fn run_run_program(args: &Args) -> Result<()> {
     // measuring silent runs, so that an instruction boundary falls into the window just above the second
     // threshold that is as wide as the overshoot at the first one - the place where an implementation that
     // counts "states since the last sync" instead of multiples of the total would announce late.
-    if !c15 {
+    if !c15 && !small {
         let mut best: Option<u32> = None;
         for pad in 0..24u32 {
             let p = prog_count(26_500, pad);
@@ -640,7 +643,7 @@ pub fn run_run_program(args: &Args) -> Result<()> {
         let s1 = run_program_x(p, &elf_path, Some(&log), vec![], *max_iters, 0, &mut rng, 0, *lite)?;
         total_events += s1.events;
         nprog += 1;
-        if c15 {
+        if c15 || small {
             continue;
         }
         // determinism: two more runs, then two under host load; only their summaries are compared
